@@ -172,7 +172,12 @@ POLY_FUNCS = ["derivative", "gradient", "hessian", "poly_divmod", "poly_divide",
               "lead_exponent", "lead_coefficient", "sortable_proxy", "decompose", "isconstant",
               "set_dimensions", "align_polynomials", "align_exponents", "align_indeterminants",
               "align_shape", "call", "equal", "not_equal", "str", "pickle", "aspolynomial", "clean",
-              "boolpoly", "boolpoly", "astype_ops", "where_kw", "where_kw", "sequence"]
+              "boolpoly", "boolpoly", "astype_ops", "where_kw", "where_kw", "sequence",
+              "numeric_args", "numeric_args"]
+
+
+class ArgumentMutated(Exception):
+    """Raised by a direct workload that compares its own temporaries."""
 RAISERS = ["unknown_name", "bad_shapes", "duplicate_exponents", "tonumpy_nonconstant",
            "numeric_division", "matmul_scalar", "bad_axis", "double_name"]
 
@@ -267,7 +272,61 @@ def call_polyfunc(numpoly, name, a, b):
             before = snapshot(c)
             out.append((numpoly.any(c), numpoly.sum(c), c + c, c * c, abs(c) if dtype != "bool" else c))
             if changed(before, snapshot(c)):
-                raise AssertionError(f"argument of dtype {dtype} modified")
+                raise ArgumentMutated(f"argument of dtype {dtype} modified")
+        return out
+    if name == "numeric_args":
+        # numeric arrays passed as axes / shapes / repeats / indices / evaluation points,
+        # with negative entries, read-write and C-contiguous (so that asarray() is no copy)
+        nd = max(a.ndim, 1)
+        cube = a if a.ndim else numpoly.polynomial([a, a])
+        perm = numpy.arange(nd, dtype=int) - nd
+        point = numpy.array([-1.0, 2.0, 0.5])
+        ipoint = numpy.array([-1, 2, 3], dtype=numpy.int64)
+        calls = [
+            ("transpose axes", perm, lambda: numpoly.transpose(cube, perm)),
+            ("numpy.transpose axes", perm, lambda: numpy.transpose(cube, perm)),
+            ("transpose bad axes", perm + 0, None),
+            ("moveaxis source", perm, lambda: numpoly.moveaxis(cube, perm, numpy.arange(nd))),
+            ("reshape shape", numpy.array([-1], dtype=int), None),
+            ("repeat repeats", numpy.array([1] * cube.shape[0], dtype=int), None),
+            ("tile reps", numpy.array([1, 2], dtype=int), None),
+            ("split indices", numpy.array([-1], dtype=int), None),
+            ("sum axis", numpy.array(-1), None),
+            ("call float point", point, lambda: a(point)),
+            ("call int point", ipoint, lambda: a(**{a.names[-1]: ipoint})),
+            ("add array", ipoint, lambda: numpoly.polynomial([a.ravel()[0]] * 3) + ipoint),
+            ("floor_divide array", ipoint, lambda: numpoly.floor_divide(numpoly.polynomial([4, 6, 9]), ipoint)),
+            ("glexindex stop", ipoint, lambda: numpoly.glexindex(abs(ipoint))),
+            ("monomial start", ipoint, lambda: numpoly.monomial(abs(ipoint) - 1, abs(ipoint) + 1)),
+            ("cross_truncate", ipoint, lambda: numpoly.cross_truncate(
+                numpy.abs(ipoint).reshape(1, 3), numpy.abs(ipoint) + 1, 1.0)),
+        ]
+        fixed = {
+            "transpose bad axes": lambda arr: numpoly.transpose(cube, numpy.append(arr[:-1], 7)),
+            "reshape shape": lambda arr: numpoly.reshape(cube, arr),
+            "repeat repeats": lambda arr: numpoly.repeat(cube, arr, axis=0),
+            "tile reps": lambda arr: numpoly.tile(cube, arr),
+            "split indices": lambda arr: numpoly.split(cube, arr + cube.shape[0], axis=0),
+            "sum axis": lambda arr: numpoly.sum(cube, axis=int(arr)),
+        }
+        out = []
+        for label, arr, func in calls:
+            before = snapshot(arr)
+            try:
+                out.append(func() if func is not None else fixed[label](arr))
+            except Exception as err:  # pylint: disable=broad-except
+                out.append(type(err).__name__)
+            if changed(before, snapshot(arr)):
+                raise ArgumentMutated(f"numeric argument modified ({label}): now {arr.tolist()}")
+        # the error path: an invalid entry next to a negative one
+        bad = numpy.array([-1] + list(range(1, nd - 1)) + [nd + 3], dtype=int)[:nd]
+        before = snapshot(bad)
+        try:
+            numpoly.transpose(cube, bad)
+        except Exception:  # pylint: disable=broad-except
+            pass
+        if changed(before, snapshot(bad)):
+            raise ArgumentMutated(f"numeric argument modified (transpose, raising): now {bad.tolist()}")
         return out
     if name == "clean":
         return numpoly.clean_attributes(a), numpoly.clean_attributes(a, retain_names=False)
@@ -317,6 +376,10 @@ def run_direct_case(case, ctx):
             call_polyfunc(numpoly, case["op"], real[0], real[1])
         else:
             call_raiser(numpoly, case["op"], real[0], real[1])
+        outcome = "returned"
+    except ArgumentMutated as err:
+        ctx.violation({"op": case["op"], "param": "temporary", "outcome": "returned",
+                       "failure": "mutated", "alias": alias}, f"{case['op']}: {err}", case)
         outcome = "returned"
     except Exception as err:  # pylint: disable=broad-except
         outcome = "raised"
